@@ -72,6 +72,13 @@ var c28Variants = []struct{ name, class string }{
 	{"sig-one-bit-flipped", "bad-signature"},
 	{"valid-4min-old", "valid"},
 	{"valid-4min-ahead", "valid"},
+	// the same attacks, but with signatures produced over the bytes the CODE says are signed
+	// (protocol.*Command.SignableBytes): a signature issued for one command must not carry over to a
+	// command that differs in identifier, timestamp or origin, whatever the signed layout is
+	{"code-signed-valid", "valid"},
+	{"code-sig-for-other-id", "bad-signature"},
+	{"code-sig-for-other-timestamp", "bad-signature"},
+	{"code-sig-for-other-origin", "bad-signature"},
 }
 
 func c28Class(v string) string {
@@ -186,6 +193,14 @@ func c28Build(c c28Case, ids []identity.AgentID, signPriv, otherPriv ed25519.Pri
 	case "sig-one-bit-flipped":
 		copy(sig[:], ed25519.Sign(signPriv, c28Signable(origin, c.ID, ts)))
 		sig[7] ^= 0x10
+	case "code-signed-valid":
+		copy(sig[:], ed25519.Sign(signPriv, (&protocol.SleepCommand{OriginAgent: origin, CommandID: c.ID, Timestamp: ts}).SignableBytes()))
+	case "code-sig-for-other-id":
+		copy(sig[:], ed25519.Sign(signPriv, (&protocol.SleepCommand{OriginAgent: origin, CommandID: c.ID + 1, Timestamp: ts}).SignableBytes()))
+	case "code-sig-for-other-timestamp":
+		copy(sig[:], ed25519.Sign(signPriv, (&protocol.SleepCommand{OriginAgent: origin, CommandID: c.ID, Timestamp: ts - 60}).SignableBytes()))
+	case "code-sig-for-other-origin":
+		copy(sig[:], ed25519.Sign(signPriv, (&protocol.SleepCommand{OriginAgent: nsID(6), CommandID: c.ID, Timestamp: ts}).SignableBytes()))
 	default:
 		return nil, fmt.Errorf("variant %q", c.Variant)
 	}
